@@ -25,7 +25,7 @@ ASSUMPTIONS = [
     "with link faults enabled the clauses are checked only while the ASH link has not failed",
 ]
 PROBES = ["type.unicast", "type.multicast", "type.broadcast", "type.other_defined", "type.undefined", "join.allowed", "join.denied", "join.left", "join.left_denied",
-          "payload.empty", "payload.max", "rssi.negative", "faulty_link", "xiaomi_prefix", "reconnect_other_version"]
+          "payload.empty", "payload.max", "rssi.negative", "faulty_link", "xiaomi_prefix", "join.device_known", "reconnect_other_version"]
 
 VERSIONS = list(range(4, 15))
 UNICAST, MULTICAST, BROADCAST = 0, 2, 4
@@ -196,12 +196,22 @@ def run(scenario, params, tape, detail=False):
                 await app.start_network()
                 await batch()
         elif scenario == "joins":
+            import zigpy.types as zt
+
             for status in (0, 1, 2, 3, 4, 5, 7, 6, 0x55):
                 for decision in (0, 1, 2, 3, 9):
                     for eui in (bytes([1, 2, 3, 4, 5, 6, 7, 8]), bytes([0, 0, 0, 0, 0, 0x8C, 0xCF, 0x04])):
                         if eui[5:] == bytes([0x8C, 0xCF, 0x04]):
                             probe("xiaomi_prefix")
                         await tcjoin(app, 0x1000 + status * 16 + decision, eui, status, decision, 0x2000 + decision)
+                    # a device the application already knows (an earlier join, or loaded from its database): under the same short address and
+                    # under another one - a (re)join callback is translated all the same
+                    known = bytes([0x4B, status, decision, 9, 9, 9, 9, 9])
+                    nwk_known = 0x5000 + status * 16 + decision
+                    app.add_device(zt.EUI64.deserialize(known)[0], nwk_known)
+                    probe("join.device_known")
+                    await tcjoin(app, nwk_known, known, status, decision, 0x2100 + decision)
+                    await tcjoin(app, nwk_known ^ 0x0F00, known, status, decision, 0x2200 + decision)
         else:
             n = 5 + tape.draw(40, "n")
             for _ in range(n):
